@@ -469,7 +469,8 @@ pub fn scenario(id: u64, seed: u64, thorough: bool, family: &str) -> Vec<Value> 
     let small_ttls: Vec<u32> = vec![1, 2, 3, 5, 10, 20];
     let mixed_ttls: Vec<u32> = vec![2, 10, 60, 120, 4500];
     let ttls = if r.chance(2, 3) { small_ttls } else { mixed_ttls };
-    let mut run = Runner::new(sim, d, r.fork(1), true);
+    // family `browsew`: the same histories under policy W (the daemon is woken only when it asks to be)
+    let mut run = Runner::new(sim, d, r.fork(1), family != "browsew");
     let nrem = r.range(1, 3) as u8;
     for k in 0..nrem {
         let rm = gen_remote(&mut r, &ifs, k, &types, &ttls);
@@ -486,6 +487,10 @@ pub fn scenario(id: u64, seed: u64, thorough: bool, family: &str) -> Vec<Value> 
         if let Some(s) = run.remotes[0].sub.clone() {
             run.at(t_browse + 10, Act::Browse(s.unescaped(), false));
         }
+    }
+    if r.chance(1, 5) {
+        // the same type is browsed a second time while the first search is open (the new channel takes over)
+        run.at(t_browse + r.range(200, 5000), Act::Browse(browsed[0].clone(), false));
     }
     // announcements, updates, goodbyes over the horizon
     let horizon: u64 = if thorough { 120_000 } else { 45_000 };
@@ -525,7 +530,14 @@ pub fn scenario(id: u64, seed: u64, thorough: bool, family: &str) -> Vec<Value> 
                     }
                 }
                 run.remotes[k] = n.clone();
-                let recs = if r.chance(1, 2) { n.all() } else { vec![n.srv(), n.txtrr()].into_iter().chain(n.addr_rrs()).collect() };
+                let mut recs: Vec<RR> = if r.chance(1, 2) { n.all() } else { vec![n.srv(), n.txtrr()].into_iter().chain(n.addr_rrs()).collect() };
+                if n.addrs[0] != rm.addrs[0] && r.chance(1, 2) {
+                    // the old address is withdrawn with a goodbye in the same packet
+                    let mut bye = rm.addr_rrs().remove(0);
+                    bye.ttl = 0;
+                    let pos = r.below(recs.len() as u64 + 1) as usize;
+                    recs.insert(pos, bye);
+                }
                 let m = wire::response(recs);
                 run.at(t, Act::Deliver { ifidx: n.ifidx, src: n.src, msg: m, compress: true });
             }
@@ -545,7 +557,7 @@ pub fn scenario(id: u64, seed: u64, thorough: bool, family: &str) -> Vec<Value> 
             }
             8 => {
                 let inst = rm.inst.unescaped();
-                run.at(t, Act::Verify(inst, *r.pick(&[100u64, 1000, 3000, 10_000, 30_000])));
+                run.at(t, Act::Verify(inst, *r.pick(&[100u64, 700, 1000, 1500, 2500, 3300, 10_000, 30_000])));
             }
             9 => {
                 // a packet that is somebody else's answer (PTR of a type nobody browses) carrying our records
@@ -556,7 +568,20 @@ pub fn scenario(id: u64, seed: u64, thorough: bool, family: &str) -> Vec<Value> 
                 run.at(t, Act::Deliver { ifidx: rm.ifidx, src: rm.src, msg: m, compress: true });
             }
             10 => {
-                run.at(t, Act::Metrics);
+                if r.chance(1, 2) {
+                    run.at(t, Act::Metrics);
+                } else {
+                    // an address with a short TTL, and in its last second another address of the same host with
+                    // the cache-flush bit: the first one still ends at its own TTL
+                    let ttl = *r.pick(&[2u32, 3, 5]);
+                    let host = rm.host.clone();
+                    let a1 = match rm.addrs[0] { IpAddr::V4(x) => { let o = x.octets(); [o[0], o[1], o[2], 210] } _ => [192, 168, 1, 210] };
+                    let a2 = [a1[0], a1[1], a1[2], 211];
+                    let m1 = wire::response(vec![RR::new(host.clone(), true, ttl, RData::A(a1))]);
+                    let m2 = wire::response(vec![RR::new(host.clone(), true, 120, RData::A(a2))]);
+                    run.at(t, Act::Deliver { ifidx: rm.ifidx, src: rm.src, msg: m1, compress: true });
+                    run.at(t + 1000 * ttl as u64 - r.range(100, 900), Act::Deliver { ifidx: rm.ifidx, src: rm.src, msg: m2, compress: true });
+                }
             }
             _ => {
                 // responder goes silent / comes back
